@@ -10,6 +10,7 @@ pub mod c10;
 pub mod c12;
 pub mod c13;
 pub mod c14;
+pub mod c16;
 pub mod c17;
 pub mod c19;
 pub mod chist;
@@ -37,6 +38,7 @@ pub fn dispatch(a: &Args) {
 		"c17" => c17::run(a),
 		"c13" => c13::run(a),
 		"c14" => c14::run(a),
+		"c16" => c16::run(a),
 		"c12s" => c12::run(a),
 		"c12child" => c12::child(a),
 		p => {
